@@ -46,6 +46,38 @@ func checkC18(c *Ctx) {
 		c.Check(ok, "C18.1", "Shuffle: randomness comes from rand.New(rand.NewSource(seed)) only", p.FuncPos(sh), "same seed, same order", "shuffle source is not seeded from the seed parameter")
 	}
 
+	// C18.6 Shuffle only permutes: the callback given to rand.Shuffle swaps leadersPartitions[i] and [j] and does nothing else
+	{
+		okSwap := false
+		detail := "no swap callback found"
+		for _, cl := range Closures(sh) {
+			k := NewKeyer(p, cl)
+			var stores [][2]string
+			other := 0
+			eachInstr(cl, func(in ssa.Instruction) {
+				st, ok := in.(*ssa.Store)
+				if !ok {
+					return
+				}
+				ia, ok := st.Addr.(*ssa.IndexAddr)
+				if !ok || !strings.HasSuffix(k.Key(ia.X), kGen+"leadersPartitions") {
+					other++
+					return
+				}
+				stores = append(stores, [2]string{k.Key(ia.Index), k.Key(st.Val)})
+			})
+			if len(stores) == 2 && other == 0 {
+				a, b := stores[0], stores[1]
+				lp := func(idx string) string { return "[" + idx + "]" }
+				if a[0] != b[0] && strings.HasSuffix(a[1], lp(b[0])) && strings.HasSuffix(b[1], lp(a[0])) && (a[0] == "p0" || a[0] == "p1") && (b[0] == "p0" || b[0] == "p1") {
+					okSwap = true
+				}
+				detail = "stores: [" + a[0] + "] := " + shortVal(a[1]) + "; [" + b[0] + "] := " + shortVal(b[1])
+			}
+		}
+		c.Check(okSwap, "C18.6", "Shuffle: the shuffle callback is a pure swap", p.FuncPos(sh), "leadersPartitions[i], leadersPartitions[j] = leadersPartitions[j], leadersPartitions[i] and nothing else: the shuffled list is a permutation", detail)
+	}
+
 	// C18.2 no discarded scenario
 	{
 		fl := NewFlow(p, gen)
